@@ -431,3 +431,281 @@ def family(rng, n, scale_choices=(1, 1, 2), blocks_choices=(1, 2, 2, 3)):
         progs.append(p)
         i += 1
     return progs
+
+
+# ====================================================================== scale family
+# Deep and big live structures, aimed at the collector's constants: nesting deeper than any
+# bound on the marker's recursion, pieces bigger than the fixed-size limit / a page / 64 KB /
+# 1 MB, addresses far inside big pieces.  Same principle as above: build, let the collector run
+# (forced schedules; the `junk' phases allocate at least as much again so that reclaimed storage
+# is reused), verify by a full traversal, print a checksum; Python computes the expected text.
+
+import re as _re
+
+
+def store_constants(src_dir):
+    """Numeric #defines of the CURRENT store.c; `bounds' = those whose name says limit/max/depth/...:
+    a bound somebody adds to the marker moves the sizes generated below beyond it."""
+    try:
+        txt = open(src_dir + "/store.c", errors="replace").read()
+    except OSError:
+        return {"defs": {}, "bounds": {}}
+    defs = {}
+    for m in _re.finditer(r"^#\s*define\s+(\w+)\s+\(?\s*(0x[0-9a-fA-F]+|\d+)\s*\)?\s*(?:/\*.*)?$", txt, _re.M):
+        try:
+            defs[m.group(1)] = int(m.group(2), 0)
+        except ValueError:
+            pass
+    bounds = {k: v for k, v in defs.items()
+              if _re.search(r"(max|limit|depth|bound|steps?|nest|interior)", k, _re.I) and 16 <= v <= 1000000
+              and not k.startswith("STO_SHOW")}
+    return {"defs": defs, "bounds": bounds, "page": 1 << defs.get("LgPgSize", 12)}
+
+
+def letter(i):
+    return chr(97 + i % 26)
+
+
+CHAIN_LAYOUTS = {          # position of the link among the fields of a cell
+    "first": ("Record(nx: Pointer, s: String, z: Integer)", "[c pretend Pointer, s, z]"),
+    "middle": ("Record(s: String, nx: Pointer, z: Integer)", "[s, c pretend Pointer, z]"),
+}
+BIG = 1 << 70
+
+
+def scale_chain(rng, consts, size=None, layout=None):
+    """a chain of n cells built iteratively; each cell owns a fresh string and a boxed Integer that come
+    AFTER (or around) the link, so that a marker following only the first pointer of an object loses them"""
+    depths = [rng.randint(20000, 30000), rng.randint(30000, 40000)]
+    for v in consts.get("bounds", {}).values():
+        if 2000 <= v <= 45000:           # (a chain of ~75000 overflows the unchanged marker's C stack: known finding)
+            depths.append(int(v * 1.04) + rng.randint(300, 900))
+    n = size or rng.choice(depths)
+    layout = layout or rng.choice(sorted(CHAIN_LAYOUTS))
+    rec, mk = CHAIN_LAYOUTS[layout]
+    a, b = rng.randint(3, 6), rng.randint(5, 9)
+    src = f'''#include "aldor"
+#include "aldorio"
+import from MachineInteger, Integer, String, Character, Boolean;
+-- `pretend' is used only for the nil link of the recursive record
+Chain: with {{
+    empty: () -> %;
+    empty?: % -> Boolean;
+    push: (String, Integer, %) -> %;
+    next: % -> %;
+    str: % -> String;
+    num: % -> Integer;
+}} == add {{
+    Rep == {rec};
+    import from Rep;
+    empty(): % == (nil$Pointer) pretend %;
+    empty?(c: %): Boolean == nil?(c pretend Pointer);
+    push(s: String, z: Integer, c: %): % == per {mk};
+    next(c: %): % == rep(c).nx pretend %;
+    str(c: %): String == rep(c).s;
+    num(c: %): Integer == rep(c).z;
+}}
+import from Chain;
+letter(i: MachineInteger): Character == char(97 + i rem 26);
+big: Integer := {BIG};
+build(n: MachineInteger): Chain == {{
+    c: Chain := empty();
+    for i: MachineInteger in 1..n repeat c := push(new({a} + i rem {b}, letter i), big + (i::Integer), c);
+    c
+}}
+junk(n: MachineInteger): MachineInteger == {{
+    t: MachineInteger := 0;
+    for i: MachineInteger in 1..n repeat {{ s: String := new(9, char 35); t := t + #s }}
+    t
+}}
+walk(c: Chain): () == {{
+    cells: MachineInteger := 0; sc: MachineInteger := 0; sz: Integer := 0;
+    while not empty? c repeat {{
+        s := str c;
+        sc := sc + ord(s.0) + ord(s.(#s - 1)) + #s;
+        sz := sz + (num c - big);
+        cells := cells + 1;
+        c := next c;
+    }}
+    stdout << cells << " " << sc << " " << sz << newline;
+}}
+ch: Chain := build({n});
+stdout << junk({n}) << newline;
+walk ch;
+stdout << junk({n // 2}) << newline;
+walk ch;
+'''
+    sc = sum(2 * ord(letter(i)) + a + i % b for i in range(1, n + 1))
+    w = f"{n} {sc} {n * (n + 1) // 2}"
+    out = [str(9 * n), w, str(9 * (n // 2)), w]
+    return "deep-chain-" + layout, src, out, dict(n=n, layout=layout)
+
+
+def scale_array(rng, consts, size=None, top=None):
+    """one big array (> 64 KB ... > 1 MB) of fresh strings; every element is checked after the collections,
+    by index and while iterating with the array's generator (which allocates on the way)"""
+    sizes = [rng.randint(20000, 30000), rng.randint(60000, 80000), rng.randint(132000, 150000)]
+    for v in consts.get("bounds", {}).values():
+        if 16 <= v <= 4000:                 # a bound counted in 256-byte quanta / in pages
+            sizes.append((v * 256) // 8 * 2 + rng.randint(100, 999))
+    n = size or rng.choice([x for x in sizes if not top or x <= top] or sizes[:1])
+    kind = rng.choice(["Array", "PrimitiveArray"])
+    L = rng.randint(4, 9)
+    new = f'new({n}, "")' if kind == "Array" else f"new {n}"
+    it = "for x in a" if kind == "Array" else f"for j: MachineInteger in 0..{n - 1}"
+    getx = "" if kind == "Array" else "x: String := a.j;"
+    src = f'''#include "aldor"
+#include "aldorio"
+import from MachineInteger, String, Character, Boolean, {kind} String;
+letter(i: MachineInteger): Character == char(97 + i rem 26);
+junk(n: MachineInteger): MachineInteger == {{
+    t: MachineInteger := 0;
+    for i: MachineInteger in 1..n repeat {{ s: String := new(9, char 35); t := t + #s }}
+    t
+}}
+a: {kind} String := {new};
+for i: MachineInteger in 0..{n - 1} repeat a.i := new({L} + i rem 3, letter i);
+stdout << junk({n}) << newline;
+check(): () == {{
+    bad: MachineInteger := 0; tot: MachineInteger := 0;
+    for i: MachineInteger in 0..{n - 1} repeat {{
+        s := a.i;
+        if s.0 ~= letter i or s.(#s - 1) ~= letter i then bad := bad + 1;
+        tot := tot + #s;
+    }}
+    stdout << bad << " " << tot << newline;
+}}
+check();
+-- iterate (generator for Array) while allocating: collections fall inside the traversal
+cnt: MachineInteger := 0; sm: MachineInteger := 0;
+{it} repeat {{
+    {getx}
+    t: String := new(6, x.0);
+    if t.5 = x.0 then sm := sm + ord(t.5);
+    cnt := cnt + 1;
+}}
+stdout << cnt << " " << sm << newline;
+check();
+'''
+    tot = sum(L + i % 3 for i in range(n))
+    sm = sum(ord(letter(i)) for i in range(n))
+    out = [str(9 * n), f"0 {tot}", f"{n} {sm}", f"0 {tot}"]
+    return "big-array-" + kind, src, out, dict(n=n, kind=kind, bytes=8 * n)
+
+
+def scale_strings(rng, consts, size=None):
+    """many large strings, sizes around the allocator's boundaries (fixed-size limit, page, 64 KB, 1 MB)"""
+    page = consts.get("page", 4096)
+    marks = [255, 256, 257, page - 9, page, page + 1, 16 * page, 65535, 65536, 65537, 70001, 262144 + 3, 1048576 + 17]
+    for v in consts.get("bounds", {}).values():
+        if 16 <= v <= 4000:
+            marks += [v * 256 - 1, v * 256 + 300, 2 * v * 256 + 7]
+    m = size or rng.randint(24, 40)
+    small = [x for x in marks if x <= 70001]
+    sizes = [x + rng.randint(0, 3) for x in marks] + [rng.choice(small) + rng.randint(0, 3) for _ in range(max(0, m - len(marks)))]
+    rng.shuffle(sizes)
+    sizes = sizes[:max(m, 3)] if size else sizes
+    m = len(sizes)
+    lit = ",".join(str(x) for x in sizes)
+    src = f'''#include "aldor"
+#include "aldorio"
+import from MachineInteger, String, Character, Boolean, List MachineInteger, List String;
+letter(i: MachineInteger): Character == char(97 + i rem 26);
+sizes: List MachineInteger := [{lit}];
+ls: List String := empty;
+k: MachineInteger := 0;
+for n in sizes repeat {{
+    s: String := new(n, letter k);
+    s.(n quo 2) := char 64;
+    s.(n - 1) := char 33;
+    ls := cons(s, ls);
+    k := k + 1;
+}}
+junk(n: MachineInteger): MachineInteger == {{
+    t: MachineInteger := 0;
+    for i: MachineInteger in 1..n repeat {{ s: String := new(300 + i rem 700, char 35); t := t + #s }}
+    t
+}}
+stdout << junk(6000) << newline;
+check(): () == {{
+    bad: MachineInteger := 0; tot: MachineInteger := 0; j: MachineInteger := {m};
+    for s in ls repeat {{
+        j := j - 1;
+        n := #s;
+        if s.0 ~= letter j or s.(n quo 2) ~= char 64 or s.(n - 1) ~= char 33 or s.(n - 2) ~= letter j then bad := bad + 1;
+        tot := tot + n;
+    }}
+    stdout << bad << " " << tot << newline;
+}}
+check();
+stdout << junk(6000) << newline;
+check();
+'''
+    jk = sum(300 + i % 700 for i in range(1, 6001))
+    out = [str(jk), f"0 {sum(sizes)}", str(jk), f"0 {sum(sizes)}"]
+    return "large-strings", src, out, dict(m=m, total_bytes=sum(sizes))
+
+
+SCALE_KINDS = {"chain": scale_chain,
+               "chain-first": lambda r, c, size=None: scale_chain(r, c, size, "first"),
+               "chain-middle": lambda r, c, size=None: scale_chain(r, c, size, "middle"),
+               "array": scale_array,
+               "array-mid": lambda r, c, size=None: scale_array(r, c, size, top=90000),
+               "strings": scale_strings}
+
+
+def scale_program(kind, seed, consts, size=None):
+    import random as _r
+    shape, src, out, params = SCALE_KINDS[kind](_r.Random(seed), consts, size)
+    return {"name": "scale-%s-%s%s" % (shape, seed, "-n%d" % size if size else ""), "family": "scale", "lib": "aldor",
+            "shapes": [shape], "kind": kind, "sseed": seed, "params": params, "src": src,
+            "expect_out": "".join(l + "\n" for l in out), "expect_status": "ok"}
+
+
+# Fixed corpus programs of the scale family.
+
+# A big array reachable ONLY through the address of one of its slots far inside the piece.
+# NOTE: this program deliberately uses `pretend' arithmetic on addresses (outside the defined
+# subset of the language): it is the only way to make an Aldor program hold nothing but an
+# interior address, which is what the run time's own C code (loops over arrays, buffers) does.
+def interior_src(n=20000, k=15000):
+    return f'''#include "aldor"
+#include "aldorio"
+-- USES `pretend' ADDRESS ARITHMETIC ON PURPOSE: only the address of slot {k} of a {n}-slot array is kept
+import from MachineInteger, String, Character;
+letter(i: MachineInteger): Character == char(97 + i rem 26);
+sum(p: Pointer): MachineInteger == {{
+    import from PrimitiveArray MachineInteger;
+    a := ((p pretend MachineInteger) - 8 * {k}) pretend PrimitiveArray MachineInteger;
+    s: MachineInteger := 0;
+    for i: MachineInteger in 0..{n - 1} repeat s := s + a.i;
+    s
+}}
+build(): (Pointer, MachineInteger) == {{
+    import from PrimitiveArray String;
+    a: PrimitiveArray String := new {n};
+    for i: MachineInteger in 0..{n - 1} repeat a.i := new(8, letter i);
+    q := ((a pretend MachineInteger) + 8 * {k}) pretend Pointer;
+    (q, sum q)
+}}
+scrub(d: MachineInteger): MachineInteger == if d = 0 then 0 else 1 + scrub(d - 1);
+check(p: Pointer): MachineInteger == {{
+    import from PrimitiveArray String;
+    a := ((p pretend MachineInteger) - 8 * {k}) pretend PrimitiveArray String;
+    bad: MachineInteger := 0;
+    for i: MachineInteger in 0..{n - 1} repeat if (a.i).0 ~= letter i then bad := bad + 1;
+    bad
+}}
+(p, before) := build();
+scrub 200;
+import from List String;
+junk: List String := [new(8, char 35) for i: MachineInteger in 1..{n}];
+after := sum p;
+if before = after then
+    stdout << "array intact, slots whose string was lost: " << check p << newline;
+else
+    stdout << "the array itself was reclaimed while slot {k} was still referenced" << newline;
+'''
+
+
+INTERIOR_EXPECT = "array intact, slots whose string was lost: 0\n"
